@@ -23,7 +23,7 @@ def run_one(sd):
         shutil.copytree("/repo", tree, ignore=shutil.ignore_patterns(".git", "__pycache__", ".benchmarks"))
         r = subprocess.run(["git", "apply", "--unsafe-paths", "--directory=" + tree, os.path.join(sd, "patch.diff")], cwd=tmp, capture_output=True, text=True)
         if r.returncode != 0:
-            r = subprocess.run(["patch", "-p1", "-s", "-d", tree, "-i", os.path.join(sd, "patch.diff")], capture_output=True, text=True)
+            r = subprocess.run(["patch", "-p1", "-s", "-F0", "-d", tree, "-i", os.path.join(sd, "patch.diff")], capture_output=True, text=True)
             if r.returncode != 0:
                 return sd, None, [], "patch does not apply"
         r = subprocess.run([PY, "-B", "-m", "cocoverif", "all", "--root", tree, "--no-evidence"], cwd=HERE, capture_output=True, text=True)
